@@ -97,7 +97,10 @@ func fail2(f string, a ...interface{}) {
 
 func genEpisode(seed uint64, e int, thorough bool) *Episode {
 	r := core.Derive(seed, "consim", "episode", e)
-	ep := &Episode{FixSeed: core.Derive(seed, "consim", "fixgroup", e/8).Uint64(), EntSeed: r.Uint64()}
+	// fixtures change every 64 episode indices, i.e. every 6-10 consecutive
+	// episodes of one worker: a worker meets the same keys and buffers over a long
+	// stretch of its history
+	ep := &Episode{FixSeed: core.Derive(seed, "consim", "fixgroup", (e%raceOffset)/64).Uint64(), EntSeed: r.Uint64()}
 	maxN := 6
 	if thorough {
 		maxN = 8
@@ -512,9 +515,7 @@ func checkEpisode(seed uint64, e int, ep *Episode, st *Sites, K int, emit func(r
 		}
 	}
 	rep.SitesExec = exec
-	if e%4 == 0 {
-		rep.BaseA = A.Results
-	}
+	rep.BaseA = A.Results
 	r := core.Derive(seed, "consim", "plans", e)
 	stepLimit = 16*A.Stats.Yields + 5e6
 	defer func() { stepLimit = 6e9 }()
